@@ -19,33 +19,134 @@ def plan(pid, level, quick, thorough, trigger, trigger_text, minimums=None, rule
                   "rule": rule or (SIM_RULE % trigger_text), "minimums": minimums or {}}
 
 
+
+def tbl(pkg, test, shards, engine, race=False, wall=900):
+    return {"pkg": pkg, "test": test, "count": shards, "shards": True, "scalable": False, "race": race, "wall": wall, "engine": engine, "family": test}
+
+
+# ---- SIM-only properties ----
+plan("C01", "exploration",
+     [sim("elections", 35), sim("random", 15), sim("churn", 10)],
+     [sim("elections", 700), sim("random", 400), sim("churn", 300), sim("fig8", 200), sim("elections", 60, race=True)],
+     {"leader-elected": 2}, "at least two leader elections",
+     {"quick": {"leader-elected": 200}, "thorough": {"leader-elected": 5000}})
+plan("C02", "exploration",
+     [sim("fig8", 25), sim("random", 20), sim("lagging", 15)],
+     [sim("fig8", 500), sim("random", 500), sim("lagging", 300), sim("crashpoints", 200), sim("random", 60, race=True)],
+     {"fsm-apply": 20}, "at least 20 entries handed to FSMs",
+     {"quick": {"fsm-restore": 20, "fsm-apply": 5000}, "thorough": {"fsm-restore": 500}})
+plan("C03", "exploration",
+     [sim("fig8", 35), sim("random", 15), sim("elections", 10)],
+     [sim("fig8", 800), sim("random", 400), sim("elections", 300), sim("crashpoints", 200)],
+     {"leader-completeness-checked": 1}, "a leader was elected after entries were known to be committed",
+     {"quick": {"leader-completeness-checked": 100}, "thorough": {"leader-completeness-checked": 3000}})
+plan("C08", "exploration",
+     [sim("clients", 40), sim("random", 20)],
+     [sim("clients", 900), sim("random", 400), sim("fig8", 200), sim("clients", 60, race=True)],
+     {"call-ok:apply": 10}, "at least 10 acknowledged Apply calls",
+     {"quick": {"call-ok:apply": 2000, "definite-failure": 50, "porcupine-ok": 30}, "thorough": {"porcupine-ok": 800}})
+plan("C09", "exploration",
+     [sim("verify", 40), sim("lease", 15), sim("churn", 25)],
+     [sim("verify", 1200), sim("lease", 400), sim("random", 400), sim("churn", 500)],
+     {"verify-ok": 1}, "a VerifyLeader call returned nil",
+     {"quick": {"verify-ok": 100, "lease-cut:voters-cut-nonvoters-reachable": 20}, "thorough": {"verify-ok": 3000}})
+plan("C10", "fault_enumeration",
+     [sim("crashpoints", 45), sim("random", 15)],
+     [sim("crashpoints", 1000), sim("random", 400), sim("churn", 200), sim("restore", 100)],
+     {"restart-checked": 4}, "at least one restart from a crash image was compared with what the new incarnation reports",
+     {"quick": {"restart-checked": 300, "restart-with-snapshot": 30}, "thorough": {"restart-checked": 8000}})
 plan("C12", "exploration",
-     [sim("random", 40), sim("churn", 20)],
-     [sim("random", 800), sim("churn", 400), sim("random", 100, race=True)],
+     [sim("lagging", 25), sim("random", 20), sim("churn", 15)],
+     [sim("lagging", 500), sim("random", 500), sim("churn", 400), sim("crashpoints", 200), sim("random", 60, race=True)],
      {"tail-one-leader": 1}, "the quiet tail ended with the bounded-progress readings taken",
-     {"quick": {"tail-member-checked": 30}, "thorough": {"tail-member-checked": 600}})
-
-for _pid, _trig, _txt in [
-    ("C01", {"leader-elected": 2}, "at least two leader elections"),
-    ("C02", {"fsm-apply": 20}, "at least 20 FSM applies"),
-    ("C03", {"leader-completeness-checked": 1}, "a leader elected after entries were known committed"),
-    ("C04", {"ae-success-with-entries": 10}, "at least 10 successful AppendEntries with entries"),
-    ("C05", {"leader-commit": 5}, "at least 5 leader commit advances"),
-    ("C06", {"vote-granted": 2}, "at least two granted votes"),
-    ("C07", {"cfg-entry-stored": 1}, "a configuration entry stored"),
-    ("C08", {"call-ok:apply": 10}, "at least 10 acknowledged Apply calls"),
-    ("C09", {"verify-ok": 1}, "a VerifyLeader that returned nil"),
-    ("C10", {"restart-checked": 2}, "at least two (re)starts checked against the durable image"),
-    ("C11", {"op:snap.close": 1}, "a snapshot persisted"),
-    ("C18", {"notify": 2}, "leadership notifications delivered"),
-]:
-    plan(_pid, "exploration", [sim("random", 40), sim("churn", 20)], [sim("random", 800), sim("churn", 400)], _trig, _txt)
-
+     {"quick": {"tail-member-checked": 60}, "thorough": {"tail-member-checked": 2000}})
+plan("C13", "exploration",
+     [sim("lease", 45), sim("quiet", 8, wall=600)],
+     [sim("lease", 900), sim("quiet", 100, wall=900), sim("verify", 200)],
+     {"lease-stepdown-measured": 1}, "a leader that lost its majority was timed until step-down (or the run was a long fault-free one)",
+     {"quick": {"lease-stepdown-measured": 60, "quiet-run": 4}, "thorough": {"lease-stepdown-measured": 1500, "quiet-run": 60}})
+plan("C14", "exploration",
+     [sim("prevote", 50)],
+     [sim("prevote", 1200)],
+     {"pv-isolation-completed": 1}, "a pre-vote enabled server was isolated and reconnected",
+     {"quick": {"pv-isolation-completed": 40, "pv-reconnect-checked": 15}, "thorough": {"pv-isolation-completed": 1000}})
 plan("C17", "exploration",
      [sim("shutdown", 40), sim("random", 20)],
-     [sim("shutdown", 800), sim("random", 300), sim("churn", 300)],
+     [sim("shutdown", 800), sim("random", 300), sim("churn", 300), sim("clients", 200)],
      {"call:apply": 10}, "client futures were observed (and, for the shutdown family, calls raced with and followed Shutdown)",
      {"quick": {"after-shutdown-call": 100}, "thorough": {"after-shutdown-call": 2000}})
+plan("C18", "exploration",
+     [sim("notify", 45), sim("random", 15)],
+     [sim("notify", 1000), sim("random", 300), sim("elections", 200)],
+     {"notify": 2}, "leadership notifications were delivered",
+     {"quick": {"notify": 150, "leader-sample-checked": 100}, "thorough": {"notify": 4000}})
+plan("C20", "exploration",
+     [sim("restore", 50)],
+     [sim("restore", 1200)],
+     {"userrestore-ok": 1}, "a user Restore returned nil",
+     {"quick": {"userrestore-ok": 20}, "thorough": {"userrestore-ok": 500}})
+
+# ---- mixed engines ----
+plan("C04", "exploration",
+     [tbl("handler", "TestC04", 8, "HANDLER"), sim("fig8", 25), sim("random", 15)],
+     [tbl("handler", "TestC04", 16, "HANDLER", wall=3000), sim("fig8", 500), sim("random", 500), sim("elections", 200)],
+     None, None,
+     {"quick": {"ae-success-with-entries": 1000, "truncation": 20}, "thorough": {"truncation": 1000}},
+     rule="HANDLER: every (follower log, snapshot boundary, current term) x (request term, previous-entry position, batch, conflict position, leader commit) within the bounds "
+          "(log <= 5 entries over 3 terms) is enumerated; thorough runs all of them, quick a seeded sample; a case is non-trivial when entries were sent and accepted. "
+          "SIM: " + (SIM_RULE % "at least 10 successful AppendEntries with entries were checked against the follower's reconstructed disk"))
+plan("C05", "exploration",
+     [tbl("table", "TestC05", 8, "TABLE"), sim("churn", 25), sim("random", 15)],
+     [tbl("table", "TestC05", 16, "TABLE", wall=3000), sim("churn", 500), sim("random", 500), sim("fig8", 300)],
+     None, None,
+     {"quick": {"leader-commit": 1000, "majority-checked-at-leader-commit": 500}, "thorough": {"leader-commit": 30000}},
+     rule="TABLE: every configuration over 3 servers (voter / non-voter / staging / absent, >= 1 voter) x startIndex 1..3 x every sequence of <= 3 (quick) / <= 4 (thorough) "
+          "match / setConfiguration calls, plus seeded random sequences (<= 30 calls, 7 servers), each compared call by call with a brute-force reference; distinct = (initial configuration, startIndex) classes and sampled random cases. "
+          "SIM: " + (SIM_RULE % "at least 5 leader commit advances were checked against the voters' reconstructed disks"))
+plan("C06", "fault_enumeration",
+     [tbl("handler", "TestC06", 8, "HANDLER"), sim("elections", 25), sim("crashpoints", 10)],
+     [tbl("handler", "TestC06", 16, "HANDLER", wall=3000), sim("elections", 600), sim("crashpoints", 300), sim("random", 300)],
+     None, None,
+     {"quick": {"vote-granted": 300, "fault-before": 500}, "thorough": {"fault-before": 10000}},
+     rule="HANDLER: persisted state (term, vote record incl. term-without-candidate, log tail, configuration) x sequences of 2-3 RequestVote / RequestPreVote / heartbeat messages x "
+          "{no fault, crash before, crash after, error} at EVERY stable-store write the sequence performs (measured by a dry run), restart and continue; quick samples base sequences, thorough 30000 of them; "
+          "non-trivial = a vote was granted. SIM: " + (SIM_RULE % "votes were granted in live elections with crashes/errors armed on the vote and term writes"))
+plan("C07", "exploration",
+     [tbl("table", "TestC07", 4, "TABLE"), sim("churn", 40), sim("elections", 10)],
+     [tbl("table", "TestC07", 16, "TABLE"), sim("churn", 900), sim("elections", 300), sim("notify", 200)],
+     None, None,
+     {"quick": {"config-append": 40, "cfg-entry-stored": 100}, "thorough": {"config-append": 1000}},
+     rule="TABLE: every configuration over 3 (quick) / 4 (thorough) server ids x every command x every target (incl. a new id) x address in {own, another server's, new, empty} x prevIndex in {0, current, stale-, stale+}, "
+          "compared with the stated rules; non-trivial = the voter set changed by one. SIM: " + (SIM_RULE % "a configuration entry was appended / stored"))
+plan("C11", "fault_enumeration",
+     [tbl("table", "TestC11", 1, "TABLE"), sim("lagging", 25), sim("crashpoints", 25), sim("random", 10)],
+     [tbl("table", "TestC11", 1, "TABLE"), sim("lagging", 500), sim("crashpoints", 500), sim("random", 300), sim("restore", 100)],
+     None, None,
+     {"quick": {"op:snap.close": 100, "compaction": 50, "snapshot-fidelity-checked": 100}, "thorough": {"op:snap.close": 3000}},
+     rule="TABLE: compactLogsWithTrailing for every (first, last, snapshot index, last log index, TrailingLogs) with values 0..8 (exhaustive); "
+          "SIM: " + (SIM_RULE % "a snapshot was persisted; the disk invariant is evaluated after every store operation (each one is a potential crash image)"))
+
+# ---- pure TABLE / FSNAP / NET ----
+plan("C15", "fault_enumeration",
+     [tbl("fsnap", "TestC15", 4, "FSNAP")],
+     [tbl("fsnap", "TestC15", 16, "FSNAP", wall=3000)],
+     None, None, {"quick": {"images-checked": 1000, "fsyncs-observed": 100, "corruptions": 40}, "thorough": {"images-checked": 30000}},
+     rule="seeded snapshot histories (2-6 snapshots, arbitrary (term,index) order incl. equal pairs, 0 B - 2 MiB, close / cancel / abandon, retain 1-3) on a real directory; "
+          "one crash image per hook point between the file-system steps, plus variants in which data that strace did not see fsynced is truncated (empty / half), un-synced renames and removals are reverted; "
+          "each image is opened with a fresh FileSnapshotStore; distinct = (history, image, hook point)")
+plan("C16", "exploration",
+     [tbl("nettrans", "TestC16", 4, "NET", race=True)],
+     [tbl("nettrans", "TestC16", 16, "NET", race=True, wall=3000)],
+     None, None, {"quick": {"messages": 1500, "pipelined": 300, "fault-placements": 60}, "thorough": {"messages": 80000}},
+     rule="generated messages of all five RPC kinds with every field populated from the seed (nil vs empty slices, 0-64 entries of every log type, up to 1 MiB data, extensions, timestamps with zone / monotonic reading, "
+          "header variants, snapshot bodies 0 B - 3 MiB) over TCP loopback and fault-injecting in-memory pipes, MaxPool {0,1,3}, MaxRPCsInFlight {1,2,3,10,130}, both time formats, 1-8 concurrent senders; distinct = request tags whose request and response were both compared")
+plan("C19", "exploration",
+     [tbl("table", "TestC19", 8, "TABLE")],
+     [tbl("table", "TestC19", 16, "TABLE", wall=3000)],
+     None, None, {"quick": {"exhaustive-sequences-x-capacity-x-backend": 100000}, "thorough": {"exhaustive-sequences-x-capacity-x-backend": 5000000}},
+     rule="every sequence of <= 3 (quick) / <= 4 (thorough) operations over {StoreLogs of 1-3 entries (contiguous, gapped, overwriting), DeleteRange(a,b), GetLog, FirstIndex, LastIndex} on indexes 1..6, cache capacities 1-3, "
+          "6 backends (plain, InmemStore, 1st / 2nd StoreLogs or DeleteRange failing), plus seeded random sequences of 20-200 operations over indexes 1..40 and capacities 1-16; "
+          "LogCache(store) and an identical store alone must return the same values; distinct = sequences containing a store, and random cases containing reads")
 
 ASSUMPTIONS = {
     "*": [
